@@ -490,6 +490,10 @@ class Bus (objects.DBusObject):
         }
 
         for item in rule.split(','):
+            if not item.strip():
+                # the empty rule text (no constraint at all) matches every
+                # message; so does a stray comma
+                continue
             k, v = item.split('=')
 
             # blanks around a key or a quoted value are not part of them
